@@ -530,7 +530,7 @@ func rulePanicType(p *Program, c *Check, funcs []*ssa.Function) {
 // REC
 
 var recTable = map[string]string{
-	"utils.rejectAmbiguousKeys": "recursion over the value tree of a decoded JSON document (finite and acyclic) guided by the static target type",
+	"utils.rejectAmbiguousKeys":                        "recursion over the value tree of a decoded JSON document (finite and acyclic) guided by the static target type",
 	"electreIII.distillate,electreIII.updatePositions": "inner distillation: the cut level strictly decreases over the finite set of credibility values (getDistillationFunc rejects functions negative on [0,1], so the next level is strictly below the current one); outer distillation: the matrix loses the classed alternatives",
 }
 
